@@ -1168,6 +1168,79 @@ def check_symbols_not_split(ctx: Check, tree: Tree) -> None:
         ctx.ok("R-SYMSPLIT", "src/ampform", "no sp.symbols() call with interpolated text")
 
 
+def check_full_range(ctx: Check, tree: Tree) -> None:
+    """R-FULLRANGE: a Wigner-D matrix is unitary only over the complete index set -s..s.  Every
+    summation pool of the alignment rotations is therefore `create_spin_range(s)` without the
+    `no_zero_spin` restriction - with it (massless states) the helicity rotation is a 2x2 block of a 3x3
+    unitary matrix and the aligned intensity differs from the unaligned one."""
+    target = "ampform.helicity.align._spin::create_spin_range"
+    if target not in tree.funcs:
+        raise AnalysisError("vanished anchor: create_spin_range")
+    tparams = tree.funcs[target].params
+    flag_name = tparams[1] if len(tparams) > 1 else None
+    callers: dict[str, list] = {}
+    for q, fn in tree.funcs.items():
+        for call, callee in tree.calls_in(fn):
+            if callee:
+                callers.setdefault(callee, []).append((fn, call))
+
+    def flag_of(call: ast.Call, callee_params: list[str], name: str):
+        for k in call.keywords:
+            if k.arg == name:
+                return k.value
+        if name in callee_params:
+            i = callee_params.index(name)
+            if i < len(call.args):
+                return call.args[i]
+        return None
+
+    def sources(fn, e, depth=0, seen=None) -> list[str]:
+        """non-constant origins of a flag expression (follows parameters to the callers)"""
+        seen = seen if seen is not None else set()
+        if e is None or (isinstance(e, ast.Constant) and e.value is False):
+            return []
+        if isinstance(e, ast.Name) and e.id in fn.params and depth < 4:
+            dflt = None
+            a = fn.node.args
+            names = [x.arg for x in a.posonlyargs + a.args]
+            d = dict(zip(names[len(names) - len(a.defaults):], a.defaults))
+            dflt = d.get(e.id)
+            out = []
+            if dflt is not None and not (isinstance(dflt, ast.Constant) and dflt.value is False):
+                out.append(f"default `{unparse(dflt)}` of {fn.qual.split('::')[-1]}")
+            for cfn, call in callers.get(fn.qual, []):
+                if (cfn.qual, id(call)) in seen:
+                    continue
+                seen.add((cfn.qual, id(call)))
+                out += sources(cfn, flag_of(call, fn.params, e.id), depth + 1, seen)
+            return out
+        if isinstance(e, ast.Name):
+            rd = RD(fn.node if fn.outer is None else fn.outer.node)
+            outs = []
+            for d_ in rd.reaching(e):
+                if d_.value is not None:
+                    outs += sources(fn, d_.value, depth + 1, seen)
+                else:
+                    outs.append(f"`{e.id}` in {fn.qual.split('::')[-1]}")
+            return outs
+        return [f"`{unparse(e)[:50]}` in {fn.qual.split('::')[-1]}"]
+
+    n = 0
+    for fn, call in sorted(callers.get(target, []), key=lambda fc: fc[0].qual):
+        if not fn.qual.startswith("ampform.helicity.align"):
+            continue
+        n += 1
+        src = sources(fn, flag_of(call, tparams, flag_name)) if flag_name else []
+        ok = not src
+        ctx.verdict(ok, "R-FULLRANGE", f"{fn.qual}::restricted-range", tree.loc(call),
+                    f"{fn.qual.split('::')[-1]}: the summation pool `{unparse(call)[:60]}` is the complete range -s..s",
+                    None if ok else {"the restriction is switched on by": sorted(set(src))[:5],
+                                     "why": "D^1 restricted to the rows/columns +-1 is not unitary: sum_{m'} |D_{m m'}|^2 < 1, so the aligned intensity is not the unaligned one"})
+    ctx.stats["spin_range_pools"] = n
+    if n < 1:
+        raise AnalysisError("no summation pool built with create_spin_range found in ampform.helicity.align")
+
+
 def check_massless_rest_frame(ctx: Check, tree: Tree) -> None:
     """R-RESTFRAME: the Wigner rotation of a final state is computed with a boost into THAT state's
     rest frame (compute_wigner_rotation_matrix: BoostMatrix(NegativeMomentum(momenta[state_id]))).  A
@@ -1239,3 +1312,4 @@ def run(ctx: Check, tree: Tree) -> None:
     ctx.section(check_dpd_generator, ctx, tree)
     ctx.section(check_spin_range_not_cached_mutable, ctx, tree)
     ctx.section(check_massless_rest_frame, ctx, tree)
+    ctx.section(check_full_range, ctx, tree)
